@@ -25,6 +25,10 @@ pub enum SOp {
     /// a's: operands normalised for independent or nested vtree nodes, which uniform picks rarely produce
     AndDisjoint(u16, u16),
     OrDisjoint(u16, u16),
+    /// the same with either operand negated first (complemented decision nodes at independent or nested
+    /// vtree positions)
+    AndDisjointNeg(u16, u16, bool, bool),
+    OrDisjointNeg(u16, u16, bool, bool),
     /// re-derive pool entry i from its truth table as a disjunction of cubes, variables conjoined in the
     /// order given by the keys (a different construction route for the same function)
     Rebuild(u16, Vec<u16>),
@@ -49,8 +53,8 @@ impl SOp {
             SOp::Exists(..) => "exists",
             SOp::Compose(..) => "compose",
             SOp::Rebuild(..) => "rebuild",
-            SOp::AndDisjoint(..) => "and",
-            SOp::OrDisjoint(..) => "or",
+            SOp::AndDisjoint(..) | SOp::AndDisjointNeg(..) => "and",
+            SOp::OrDisjoint(..) | SOp::OrDisjointNeg(..) => "or",
             SOp::Dense(..) => "dense",
         }
     }
@@ -71,6 +75,8 @@ pub fn sop_strategy_ext(with_ite_family: bool, with_rebuild: bool, with_dense: b
         (3, (idx_strategy(), any::<u8>()).prop_map(|(a, v)| SOp::Exists(a, v)).boxed()),
         (3, (idx_strategy(), idx_strategy()).prop_map(|(a, b)| SOp::AndDisjoint(a, b)).boxed()),
         (2, (idx_strategy(), idx_strategy()).prop_map(|(a, b)| SOp::OrDisjoint(a, b)).boxed()),
+        (2, (idx_strategy(), idx_strategy(), any::<bool>(), any::<bool>()).prop_map(|(a, b, x, y)| SOp::AndDisjointNeg(a, b, x, y)).boxed()),
+        (1, (idx_strategy(), idx_strategy(), any::<bool>(), any::<bool>()).prop_map(|(a, b, x, y)| SOp::OrDisjointNeg(a, b, x, y)).boxed()),
     ];
     if with_ite_family {
         v.push((3, (idx_strategy(), idx_strategy()).prop_map(|(a, b)| SOp::Xor(a, b)).boxed()));
@@ -177,7 +183,11 @@ impl<'a, B: SddBuilder<'a>> SddRun<'a, B> {
                     vec![f, g],
                 )
             }
-            SOp::AndDisjoint(x, y) | SOp::OrDisjoint(x, y) => {
+            SOp::AndDisjoint(x, y) | SOp::OrDisjoint(x, y) | SOp::AndDisjointNeg(x, y, _, _) | SOp::OrDisjointNeg(x, y, _, _) => {
+                let (negx, negy) = match op {
+                    SOp::AndDisjointNeg(_, _, a, b) | SOp::OrDisjointNeg(_, _, a, b) => (*a, *b),
+                    _ => (false, false),
+                };
                 let x = self.at(*x);
                 let start = self.at(*y);
                 let sx = self.pool[x].1.support();
@@ -191,10 +201,12 @@ impl<'a, B: SddBuilder<'a>> SddRun<'a, B> {
                         break;
                     }
                 }
-                if matches!(op, SOp::AndDisjoint(..)) {
-                    (b.and(self.pool[x].0, self.pool[y].0), self.pool[x].1.and(self.pool[y].1), vec![x, y])
+                let (px, tx) = if negx { (b.negate(self.pool[x].0), self.pool[x].1.not()) } else { self.pool[x] };
+                let (py, ty) = if negy { (b.negate(self.pool[y].0), self.pool[y].1.not()) } else { self.pool[y] };
+                if matches!(op, SOp::AndDisjoint(..) | SOp::AndDisjointNeg(..)) {
+                    (b.and(px, py), tx.and(ty), vec![x, y])
                 } else {
-                    (b.or(self.pool[x].0, self.pool[y].0), self.pool[x].1.or(self.pool[y].1), vec![x, y])
+                    (b.or(px, py), tx.or(ty), vec![x, y])
                 }
             }
             SOp::Dense(bits) => {
